@@ -20,6 +20,16 @@ MAY_RAISE = {
     'os.scandir': ['OSError'],
     'os.remove': ['OSError'],
     'os.utime': ['OSError'],
+    'os.replace': ['OSError'],
+    'os.rename': ['OSError'],
+    'os.unlink': ['OSError'],
+    'os.fdopen': ['OSError'],
+    'os.stat': ['OSError'],
+    'os.path.getatime': ['OSError'],
+    'os.path.getsize': ['OSError'],
+    'tempfile.mkstemp': ['OSError'],
+    'tempfile.NamedTemporaryFile': ['OSError'],
+    'shutil.move': ['OSError'],
     'shutil.rmtree': ['OSError'],
     '.stat': ['OSError'],                  # DirEntry.stat / Path.stat
     '.close': [],
@@ -202,6 +212,10 @@ class Roles:
         if isinstance(e, ast.Name):
             pr = self.param_roles.get((f.key, e.id))
             if pr:
+                # a parameter that the function rebinds (assignment, loop / with target - comprehension variables
+                # live in their own scope and do not count) no longer has the role it was called with
+                if self._rebound(f, e.id):
+                    return 'REBOUND-IN-%s' % f.name
                 return pr
             vals = [n.value for n in walk_own(f.node) if isinstance(n, ast.Assign)
                     and any(isinstance(t, ast.Name) and t.id == e.id for t in n.targets)]
@@ -214,6 +228,28 @@ class Roles:
             if len(roles) == 1:
                 return roles.pop()
         return None
+
+    @staticmethod
+    def _rebound(f, name):
+        for n in walk_own(f.node):
+            if isinstance(n, ast.Name) and n.id == name and isinstance(n.ctx, (ast.Store, ast.Del)):
+                p = getattr(n, '_parent', None)
+                in_comp = False
+                while p is not None and p is not f.node:
+                    if isinstance(p, ast.comprehension):
+                        in_comp = True
+                        break
+                    p = getattr(p, '_parent', None)
+                if in_comp:
+                    continue
+                # `path = str(path)`-style conversions keep the role; anything else (loop / with target, a value
+                # that does not mention the parameter) replaces it
+                st = getattr(n, '_parent', None)
+                if isinstance(st, ast.Assign) and len(st.targets) == 1 and st.targets[0] is n \
+                        and any(isinstance(x, ast.Name) and x.id == name for x in ast.walk(st.value)):
+                    continue
+                return True
+        return False
 
     def _infer(self):
         for _ in range(4):
@@ -386,9 +422,30 @@ def cache_4(ctx, rep, roles):
     rep.ob('CACHE-4', CACHE, sv.qual, '_get_hashed_path(...) in writer and reader', ok,
            'writer and reader compute the pickle path from different arguments: %s vs %s'
            % ([norm(x) for x in a], [norm(x) for x in b]))
-    opens_w = [n for n in walk_own(sv.node) if isinstance(n, ast.Call) and norm(n.func) == 'open']
-    ok = len(opens_w) == 1 and len(opens_w[0].args) > 1 and isinstance(opens_w[0].args[1], ast.Constant) and opens_w[0].args[1].value == 'wb'
-    rep.ob('CACHE-4', CACHE, sv.qual, "open(<pickle path>, 'wb')", ok, 'the writer does not open the pickle for truncating binary write')
+    def is_pickle_path(e):
+        if isinstance(e, ast.Call) and norm(e.func) == '_get_hashed_path':
+            return True
+        if isinstance(e, ast.Name):
+            vals = [n.value for n in walk_own(sv.node) if isinstance(n, ast.Assign)
+                    and any(isinstance(t, ast.Name) and t.id == e.id for t in n.targets)]
+            return bool(vals) and all(is_pickle_path(v) for v in vals)
+        return False
+
+    def mode_of(c):
+        m = c.args[1] if len(c.args) > 1 else next((k.value for k in c.keywords if k.arg == 'mode'), None)
+        return m.value if isinstance(m, ast.Constant) else None
+    opens_w = [n for n in walk_own(sv.node) if isinstance(n, ast.Call) and norm(n.func) in ('open', 'os.fdopen', 'io.open')]
+    direct = [c for c in opens_w if c.args and is_pickle_path(c.args[0])]
+    moved = [n for n in walk_own(sv.node) if isinstance(n, ast.Call) and norm(n.func) in ('os.replace', 'os.rename')
+             and len(n.args) == 2 and is_pickle_path(n.args[1])]
+    if direct:
+        ok = len(direct) == 1 and len(opens_w) == 1 and mode_of(direct[0]) == 'wb'
+        why = 'the writer does not open the pickle for truncating binary write'
+    else:
+        # write-to-temporary-then-rename: new content in a 'wb' file that is then moved onto the pickle path
+        ok = len(moved) == 1 and len(opens_w) == 1 and mode_of(opens_w[0]) == 'wb'
+        why = 'the writer neither truncates the pickle nor moves a freshly written file onto it'
+    rep.ob('CACHE-4', CACHE, sv.qual, "pickle written as new content ('wb' on the pickle path, or a 'wb' temporary moved onto it)", ok, why)
     opens_r = [n for n in walk_own(ld.node) if isinstance(n, ast.Call) and norm(n.func) == 'open']
     ok = len(opens_r) == 1 and len(opens_r[0].args) > 1 and isinstance(opens_r[0].args[1], ast.Constant) and opens_r[0].args[1].value == 'rb'
     rep.ob('CACHE-4', CACHE, ld.qual, "open(<pickle path>, 'rb')", ok, 'the reader does not open the pickle for binary read')
@@ -516,6 +573,16 @@ def cache_5(ctx, rep):
                 continue
             name = norm(n.func)
             args = list(n.args)
+            if name in ('os.replace', 'os.rename') and len(args) == 2 and is_pickle_path(f, args[1]) \
+                    and not is_pickle_path(f, args[0]):
+                # a freshly written file is moved onto the pickle path: new content, allowed in the writer only
+                n_sites += 1
+                wrote = any(isinstance(x, ast.Call) and norm(x.func) in ('open', 'os.fdopen', 'io.open')
+                            and any(isinstance(a, ast.Constant) and a.value == 'wb' for a in list(x.args) + [k.value for k in x.keywords])
+                            for x in walk_own(f.node))
+                rep.ob('CACHE-5', CACHE, f.qual, norm(n), f.qual == '_save_to_file_system' and wrote,
+                       'a file is moved onto a cache file outside the writer / without new content being written')
+                continue
             if name in writers or name.endswith('.touch') or (name in ('_touch',)):
                 tgt = args[0] if args else (n.func.value if isinstance(n.func, ast.Attribute) else None)
                 if tgt is not None and is_pickle_path(f, tgt):
